@@ -198,7 +198,22 @@ def rule_e(F):
     return res
 
 
+def rule_k(F):
+    """every resize leaves a free slot: for each call of adjust_capacity, in all small states (count < capacity) in which the
+    guards around the call hold, the installed capacity exceeds the item count (cao/capacity.py, exhaustive evaluation)."""
+    from cao import capacity
+    res = []
+    for f, ln, status, msg in capacity.free_slot_after_resize(F, "collections::hash_map::CaoHashMap", False):
+        key = "C12/K/%s/free-slot-after-resize" % f.name
+        mk = {"ok": ok, "bad": bad, "undecided": undecided}[status]
+        res.append(mk("C12.K", key, f.loc(ln), msg))
+    if not res:
+        raise AnchorMissing("calls of adjust_capacity")
+    return res
+
+
 RULES = [
+    Rule("C12.K", rule_k, 2, "every resize leaves a free slot"),
     Rule("C12.R", rule_r, 4, "slot/count pairing in CaoHashMap"),
     Rule("C12.H", rule_h, 1, "one home-slot function"),
     Rule("C12.I", rule_i, 2, "no stale slot index across reallocation"),
